@@ -265,6 +265,8 @@ class VariantInterval(AbstractFeatureInterval):
             location = location.lift_over_to_first_ancestor_of_type(SequenceType.CHROMOSOME)
 
         if len(self.chromosome_location) == len(self.sequence) or location.end <= self.chromosome_location.start:
+            if not self.has_sequence:
+                return location.reset_parent(None)
             return self.liftover_location_to_seq_chunk_parent(location, self.parent_with_alternative_sequence)
 
         if type(location) is SingleInterval:
